@@ -8,12 +8,73 @@ TRUST = ("Trusted base: the reference model in harness/model (written from the p
          "independent of clover's code), the interpreters in harness/run, rapid v1.3.0, the Go toolchain. "
          "Verdict = held on everything explored; no claim of absence.")
 
+SM = "model-based stateful property testing (rapid state machine vs reference model, delta-debugged replay files)"
+
 CHECKS = {
-    "C01": dict(
-        technique="model-based stateful property testing (rapid state machine vs reference evaluator, delta-debugged replays)",
+    "C01": dict(technique=SM + "; oracle: independent criteria evaluator",
         text="Generated histories of every write operation over several collections (indexes absent, created before or after the data) on bbolt (quick) and bbolt+badger (thorough); every FindAll/ForEach/FindById is compared with an independent reference evaluator over the model's live documents, with type-strict document equality and a tie-aware oracle for sorted windows. Exploration is the right level: the property quantifies over histories x documents x criteria trees, which can only be sampled; the generator is built to hit the planner's cells (Or/Not nesting, nil and field-reference operands, mixed types, index on the filtered field).",
         design="6/C01"),
+    "C02": dict(technique="differential stateful property testing: twin collections with and without indexes receive identical histories (rapid), plus the reference model",
+        text="Twin collections A (never indexed) and B (generated index set, created before/between/after writes) receive identical writes; FindAll, Count, Update and Delete with generated criteria, sorts and windows must select the same documents and the same sort-key sequence on both, and a counting store decorator measures whether B's plan really touched index keys. Exploration: the space is criteria shape x index set x direction x value types.",
+        design="6/C02"),
+    "C03": dict(technique="property-based testing over parameterised collection sizes and page layouts with a callback-recording updater; oracle: FindAll before the call + model",
+        text="Collections constructed from drawn parameters (0 to several thousand documents, pad sizes spanning many bbolt pages, index sets, both backends); Update/UpdateFunc/Delete/DropCollection must touch exactly the documents FindAll returned immediately before, the callback must run once per document on its pre-call value, every other document stays unchanged, followed by a raw key audit.",
+        design="6/C03"),
+    "C04": dict(level="fault_enumeration", technique="fault injection by enumeration: a store decorator fails the k-th store call (begin/get/set/delete/cursor item/commit) for every k an operation makes; generated states and operations; oracle: raw key/value dump unchanged, error reported, handle still usable",
+        text="For generated (state, operation) pairs the number of store calls M is measured in a dry run, then for every position k <= M (sampled evenly in the quick tier) the state is rebuilt and the k-th call fails; also every invalid-input failure. The raw key/value dump must equal the pre-call dump, the injected error must surface, and a follow-up write must succeed. Fault enumeration is the right level: the property quantifies over positions of the failing call, a finite set per operation that is enumerated.",
+        design="6/C04"),
+    "C05": dict(level="fault_enumeration", technique="crash-point enumeration: a worker process replays a generated program and is killed (SIGKILL) inside the k-th store call / at sampled instants; clean close+reopen after every prefix; oracle: reopened state equals the model after the last acknowledged or the in-flight operation",
+        text="Generated write programs run in a child process on bbolt and badger on disk; the child is killed inside enumerated store calls of each operation (transaction abandoned before commit), inside commit, and at random instants; the parent reopens the directory and requires the full logical state (catalog, documents, index-backed queries, raw key audit) to equal the model after the last ACK or after the in-flight operation. Process death only - power loss is out of reach.",
+        design="6/C05"),
+    "C06": dict(technique=SM + "; oracle: complete raw key space vs key set derived from the model (fresh-rebuild differential for index entries)",
+        text="Failure-rich histories (absent-id deletes, failing writes, drop/re-create under the same name, prefix-related index fields, in-place updaters) on bbolt and badger; after every step the complete raw key space must equal the key set derived from the model: metadata with exact Size and index list, one record per live document, exactly one entry per document and index under its current value, nothing else.",
+        design="6/C06"),
+    "C07": dict(technique="randomised concurrent programs with schedule perturbation at every store call, recorded histories checked for linearizability against the reference model (porcupine), same runs under the Go race detector",
+        text="2-8 goroutines issue generated operations on one handle over shared collections on bbolt and badger; a yielding store decorator perturbs the schedule from a drawn bit vector; the recorded call/return history must be linearizable with respect to the reference model; the race-enabled binary must report no data race. Schedules are sampled, not enumerated.",
+        design="6/C07"),
+    "C08": dict(technique="property-based testing of sort/skip/limit against a tie-aware window oracle (reference total order), with and without indexes",
+        text="Collections with few distinct, mixed-type, nil and absent sort keys (ties guaranteed), 1-3 sort options in every direction value, Sort() without options, skip/limit including 0, negative and beyond the size, index on sort and/or filter field; the result must be the window of some correctly sorted order (complete and sound tie-aware rule), unsorted windows by cardinality and membership.",
+        design="6/C08"),
+    "C09": dict(technique=SM + "; oracle: differential between derived calls and FindAll on the same state, snapshots of the query object and of the raw store",
+        text="On generated states and queries Count, Exists, FindFirst, ForEach (with a consumer stopping at a drawn k) and FindById are compared with FindAll of the same query on the same state; the query object (collection, criteria, skip, limit, sort) and the raw store are snapshotted before and after to show that neither calls nor builder methods mutate.",
+        design="6/C09"),
+    "C10": dict(technique="property-based testing of pairs/triples over a boundary-rich value domain: reference comparator (differential), preorder laws (algebraic), key order = comparison order (metamorphic); native fuzzing of the same targets in the thorough tier",
+        text="Pairs and triples from boundary-rich value sets (int64/uint64 extremes, -0.0, infinities, 0x00/0xFF strings, nested containers, times over the representable range): the sign of clover's comparison (read off Gt/Lt/Eq criteria) equals the reference comparator's, is reflexive, antisymmetric and transitive, and index key bytes (index.Add on a recording transaction) sort exactly like the values.",
+        design="6/C10"),
+    "C11": dict(technique="round-trip property-based testing (write, read by id / by query / after reopen; document.Encode/Decode) with type-strict equality",
+        text="Generated documents to depth 4 with integer extremes, empty containers, non-UTF-8 strings and zoned times inside arrays and objects are written through Insert/Save/Update/ReplaceById and read back by id, by query and after Close/Open; the result must be deeply equal with exact Go types and zone offsets.",
+        design="6/C11"),
+    "C12": dict(technique=SM + "; validity predicate for _id-rewriting updates",
+        text="Id-centred histories (generated and supplied ids, duplicates at every batch position, malformed ids, same ids in two collections, Save/ReplaceById mismatches, updates that rewrite _id); the model decides assignment, ErrDuplicateKey and rejection, and after every step FindById(c,id) may only return a document whose _id is id, scans and FindById agree, and unaddressed documents are unchanged.",
+        design="6/C12"),
+    "C13": dict(technique=SM + "; catalog and every other collection compared with the model after each step",
+        text="Histories over prefix-related, dotted, colon, unicode and empty collection names with 2-5 live collections sharing ids; after every step the catalog, the sentinel errors and the full contents, index list and Count of every collection must equal the model.",
+        design="6/C13"),
+    "C14": dict(technique=SM + "; index catalog and queries through surviving indexes compared with the model",
+        text="Index creation/drop interleaved with writes over prefix pairs (x/xy) and dotted sub-paths (n/n.a); ListIndexes/HasIndex and sentinels equal the model and every surviving index must still answer ordered scans (both directions) and range queries like the model after each catalog change.",
+        design="6/C14"),
+    "C15": dict(technique="differential stateful property testing across storage backends (same history on bbolt, badger in memory, badger on disk) plus a model-based property test of the store.Cursor contract on both adapters",
+        text="The same generated single-threaded history runs on bbolt, badger in memory and badger on disk (small files; shipped default options in the thorough tier); every step must give the same documents in the same order, counts, catalogs and the same sentinel (or an error on all). Separately both adapters' cursors are checked against a sorted-slice model: forward/reverse seek to present/absent/out-of-range targets, each key once in order, empty values visible.",
+        design="6/C15"),
+    "C16": dict(technique="property-based testing of criteria: reference truth value (differential) and algebraic/metamorphic identities (double negation, De Morgan, Neq=Not Eq, In, Contains, literal-kind invariance, field-reference substitution)",
+        text="Generated criteria trees and documents (absent fields, nil, mixed types, every Go numeric kind for the same literal, field references to absent fields) are evaluated with Satisfy (raw and pre-normalised literals) and through FindAll; results must equal the reference evaluator and satisfy the Boolean identities and literal-kind invariance the property lists.",
+        design="6/C16"),
+    "C17": dict(technique="model-based property testing of index.RangeIndex over real bbolt and badger transactions (filtered sorted slice as the model)",
+        text="Indexes populated through Add with duplicate, nil and mixed-type values on real transactions of both backends; IterateRange over generated ranges (bounds mostly equal to stored values, both inclusivity flags, both directions, nil-only range), a consumer stopping after k, Iterate, Intersect and IsEmpty are compared with a filtered sorted-slice model.",
+        design="6/C17"),
+    "C18": dict(technique="property-based testing with reflection-built Go values: reference normaliser (differential), idempotence, Set/Get/Has laws, struct round trip",
+        text="Go values built by reflection (every integer/float width, pointer chains incl. to times and nil, maps, slices, arrays, tagged/embedded/nested structs, unsupported kinds) are normalised through Document.Set/NewDocumentOf and compared with a reference normaliser; idempotence, unsupported => unchanged, dotted-path laws and struct -> document -> Unmarshal round trips are checked.",
+        design="6/C18"),
+    "C19": dict(technique="round-trip property-based testing of ExportCollection/ImportCollection against the JSON image of the model, plus generated failure paths",
+        text="Generated collections of JSON-representable documents (with/without indexes) are exported and imported under a new name; count, ids, field sets and JSON-typed values must match, the source must be untouched, and failing imports (existing name, unreadable or ill-formed file, wrong shape) must leave every existing collection unchanged (raw dump).",
+        design="6/C19"),
+    "C20": dict(technique=SM + " with a hostile action mix; oracle: recover() and a per-call deadline around every public call",
+        text="Every engine wraps every clover call in recover() and a deadline; in addition a hostile profile drives negated In/Like/Exists/Contains/MatchFunc with 0-2 indexes, field-reference and un-normalisable operands, missing collections/indexes/documents for every API, every API after Close, double Close and empty batches, on bbolt and badger. A panic or a reproducible hang is a violation.",
+        design="6/C20"),
 }
+
+BUILT = ["C01", "C06", "C12", "C13", "C14"]
+CHECKS = {k: v for k, v in CHECKS.items() if k in BUILT}
 
 NOT_YET = {}
 
